@@ -70,7 +70,7 @@ var specs = map[string]*propSpec{
 			{Path: "./pkg/mongodb", Touch: true, TouchLocalMaps: true},
 		},
 		QuickSecs: 50, ThoroughSecs: 600, Chunk: 50,
-		Rule: "each run is one of: (S-pure) 2-8 request tasks, 1-4 requests each, on one long-lived server built by the real pipeline from a corpus of routes without providers (deep recursion, generic functions instantiated at different types, loops, strings, async blocks, query parameters, typed input, auth+ratelimit), compiled or interpreter mode, each response compared with the response the same request gets alone on a fresh server; (S-prov) the same with single-operation provider routes (mock database, Redis, MongoDB) plus atomicity invariants; (P) 2-4 tasks calling the mock providers' Go API directly, history checked for linearizability against a fresh mock replaying the candidate order; preemption at evaluation steps (EvaluateExpression, ExecuteStatement, VM.step), locks, atomics and race probes (including values handed to JSON encoders); a run is non-trivial if at least two tasks were runnable at once and a preemption happened; distinct = distinct fingerprints (schedule hash combined with workload tape) among those",
+		Rule: "each run is one of: (S-pure) 2-8 request tasks, 1-4 requests each, on one long-lived server built by the real pipeline from a corpus of routes without providers (deep recursion, generic functions instantiated at different types, loops, strings, async blocks, query parameters, typed input, auth+ratelimit), compiled or interpreter mode, each response compared with the response the same request gets alone on a fresh server; (S-prov) the same with single-operation provider routes (mock database, Redis, MongoDB) plus atomicity invariants; (P) 2-4 tasks calling the mock providers' Go API directly, history checked for linearizability against a fresh mock replaying the candidate order; preemption at evaluation steps (EvaluateExpression, ExecuteStatement, VM.step), locks, atomics and race probes (including values handed to JSON encoders) (the corpus includes a typed route whose object/list literal defaults are mutated in place, and database routes over a list-valued column with a filter the store cannot evaluate, whose panic is contained as net/http contains it); a run is non-trivial if at least two tasks were runnable at once and a preemption happened; distinct = distinct fingerprints (schedule hash combined with workload tape) among those",
 		Components: []component{
 			{"parser, compiler, setupRoutes, registerRoute/registerCompiledRoute, createHandler (cmd/glyph)", "real-woven", "L0 + race probes"},
 			{"pkg/interpreter (one interpreter per server: evalDepth, TypeChecker.typeScope, environments)", "real-woven", "entry yields at EvaluateExpression/ExecuteStatement + race probes"},
@@ -97,7 +97,7 @@ var specs = map[string]*propSpec{
 		},
 		ExtraPkgs: []extraPkg{{From: "sim/simfsn", To: "pkg/zzsimrt/simfsn"}},
 		QuickSecs: 45, ThoroughSecs: 600, Chunk: 50,
-		Rule: "each run is either (A) `glyph dev`: the real hotReloadManager started on a valid file, then 1-12 edits drawn from {valid version k, parse error, semantic error, empty, deleted, deleted-and-recreated}, saves delivered whole or torn into two writes with an event in between, duplicated / extra / spurious (chmod) / create events, waits from 0 to 3 s around the 100 ms debounce, a probe request after every edit and a final valid edit; or (B) the library ReloadManager with its polling FileWatcher over real files, the real parser+compiler behind CompilerInterface, a recording ServerInterface with injected Reload failures, edits spaced around the 500 ms poll and 200 ms debounce; a run is non-trivial if a fault fired (torn save, extra/spurious event, injected reload failure, clock jump) or two tasks were runnable at once with a preemption; distinct = distinct fingerprints (schedule hash combined with workload and fault tapes) among those",
+		Rule: "each run is either (A) `glyph dev`: the real hotReloadManager started on a valid file, then 1-12 edits drawn from {valid version k, parse error, semantic error, empty, deleted, deleted-and-recreated}, saves delivered whole or torn into two writes with an event in between, duplicated / extra / spurious (chmod) / create events, waits from 0 to 3 s around the 100 ms debounce, a probe request after every edit and a final valid edit; or (B) the library ReloadManager with its polling FileWatcher over real files, the real parser+compiler behind CompilerInterface, a recording ServerInterface with injected Reload failures, edits spaced around the 500 ms poll and 200 ms debounce; in a third of the dev runs browser tabs hold the live-reload stream open across reloads; saves are stamped by the harness (restored backups carry older or identical modification times); in a third of the library runs a compilation takes 0-900 ms of simulated time; a run is non-trivial if a fault fired (torn save, extra/spurious event, injected reload failure, clock jump) or two tasks were runnable at once with a preemption; distinct = distinct fingerprints (schedule hash combined with workload and fault tapes) among those",
 		Components: []component{
 			{"cmd/glyph hotReloadManager.startServer / startDevServerInternal / watchForChanges (debounce) / reload, parseSource, setupRoutes, createHandler", "real-woven", "L0 + race probes"},
 			{"pkg/hotreload FileWatcher (hashing real files), ReloadManager.handleChanges", "real-woven", "yield before every statement + race probes"},
@@ -121,7 +121,7 @@ var specs = map[string]*propSpec{
 		ExtraPkgs:      []extraPkg{{From: "sim/simrand", To: "pkg/zzsimrt/simrand"}},
 		ReplaceModules: []replaceModule{{Path: "github.com/gorilla/websocket", Dir: "github.com/gorilla/websocket@v1.5.3"}},
 		QuickSecs: 45, ThoroughSecs: 600, Chunk: 100,
-		Rule: "each run draws hub/room limits (1-4 / 1-3), queue size 1-4 and strategy, heartbeat and reconnection settings, then 2-6 clients (real gorilla client framing over a simulated connection: connect, join/leave/broadcast/ping/custom-event frames, garbage, orderly close or abrupt vanish, small receive buffers = slow consumers) and 0-3 actor tasks calling the public API (Connection.JoinRoom/LeaveRoom/Send/Close, Hub.Broadcast/BroadcastToRoom, RestoreConnectionState), with custom handlers that run on the hub loop; a run is non-trivial if at least two tasks were runnable at once and a preemption happened, or a fault (client close/vanish, server close, short read, clock jump) fired; distinct = distinct fingerprints (schedule hash combined with workload and fault tapes) among those",
+		Rule: "each run draws hub/room limits (1-4 / 1-3), queue size 1-4 and strategy, heartbeat and reconnection settings, then 2-6 clients (real gorilla client framing over a simulated connection: connect, join/leave/broadcast/ping/custom-event frames, garbage, orderly close or abrupt vanish, small receive buffers = slow consumers) and 0-3 actor tasks calling the public API (Connection.JoinRoom/LeaveRoom/Send/Close, Hub.Broadcast/BroadcastToRoom, RestoreConnectionState), with custom handlers that run on the hub loop; hot-room, sparse-room (a room that keeps becoming empty while another connection joins it) and post-disconnect send phases; a run is non-trivial if at least two tasks were runnable at once and a preemption happened, or a fault (client close/vanish, server close, short read, clock jump) fired; distinct = distinct fingerprints (schedule hash combined with workload and fault tapes) among those",
 		Components: []component{
 			{"pkg/websocket Server.HandleWebSocket, Hub.Run, Connection ReadPump/WritePump/Send/JoinRoom/LeaveRoom/Close, RoomManager, default and custom handlers, metrics", "real-woven", "L0 + race probes"},
 			{"gorilla/websocket upgrade, framing, control frames (client and server side)", "real-woven", "L0 (woven from the module cache through the overlay): its channel-mutex and timers park in the scheduler"},
@@ -161,7 +161,7 @@ var specs = map[string]*propSpec{
 		ID: "C14", Title: "database transactions are all-or-nothing",
 		TestPkg: "pkg/database", HarnessDir: "C14",
 		QuickSecs: 40, ThoroughSecs: 480, Chunk: 50,
-		Rule: "each run generates 1-4 back-to-back transactions of 0-6 statements (insert, update, delete, insert violating a unique constraint, select; callbacks that return or ignore statement errors) and executes the whole sequence once per (fault kind, position): callback error / panic / context cancel / deadline expiry on the fake clock at every statement boundary, nested transaction with a deadline, and driver-level faults from a wrapper around the real sqlite driver (Exec error, ErrBadConn, BeginTx error, Commit error before and after applying, Rollback error) - quick sweeps a seeded subset of kinds, thorough all of them; plus one bulk insert with a seeded violating row and, on the Postgres-struct backend, ORM.Transaction; after every transaction the table read through a fault-free query must equal the reference map (all effects or none) and a fault-free transaction must succeed within 5 simulated seconds; evaluations = runs (each run = dozens of executions, counted in coverage.executions); a run is non-trivial if at least one fault fired; distinct = distinct fingerprints of workload and fault tapes",
+		Rule: "each run generates 1-4 back-to-back transactions of 0-6 statements (insert, update, delete, insert violating a unique constraint, select; callbacks that return or ignore statement errors) and executes the whole sequence once per (fault kind, position): callback error / panic / context cancel / deadline expiry on the fake clock at every statement boundary, nested transaction with a deadline, and driver-level faults from a wrapper around the real sqlite driver (Exec error, ErrBadConn, BeginTx error, Commit error before and after applying, Rollback error) - quick sweeps a seeded subset of kinds, thorough all of them; (callback errors include context.Canceled, context.DeadlineExceeded bare and wrapped, sql.ErrTxDone and driver.ErrBadConn raised while the transaction context is alive) plus one bulk insert with a seeded violating row and, on the Postgres-struct backend, ORM.Transaction flat and nested; after every transaction the table read through a fault-free query must equal the reference map (all effects or none) and a fault-free transaction must succeed within 5 simulated seconds; evaluations = runs (each run = dozens of executions, counted in coverage.executions); a run is non-trivial if at least one fault fired; distinct = distinct fingerprints of workload and fault tapes",
 		Components: []component{
 			{"pkg/database SQLiteDB/PostgresDB/MySQLDB.Transaction, BulkInsert, ORM.Transaction/Create", "real-unwoven", "driven through their public methods; Postgres/MySQL structs are built over the sqlite handle (their Transaction code is driver-agnostic)"},
 			{"database/sql pool and context handling", "real-unwoven", ""},
@@ -178,7 +178,7 @@ var specs = map[string]*propSpec{
 		TestPkg: "pkg/jit", HarnessDir: "C15",
 		Weave:     []weave.PkgConfig{{Path: "./pkg/jit", Touch: true, L2Files: []string{"*"}}},
 		QuickSecs: 40, ThoroughSecs: 600, Chunk: 200,
-		Rule: "each run draws hot-path threshold and recompile window, then 1-5 tasks issue 3-16 operations each (CompileRoute, CompileRouteWithTypes over a colliding pool of type maps, RecordExecution bursts, CheckAdaptiveRecompilation, RecordDeoptimization, redefine = new version + InvalidateCache/ClearCache, deoptimise = new version + RecordDeoptimization, GetUnit, profiler type usage, clock advances across the window) on three route names with statement-level interleaving; every bytecode handed out is executed on a fresh VM and compared with a fresh OptNone compilation; a run is non-trivial if at least two tasks were runnable at once and a preemption happened, or a clock advance fired; distinct = distinct fingerprints (schedule hash combined with workload and fault tapes) among those",
+		Rule: "each run draws hot-path threshold and recompile window, then 1-5 tasks issue 3-16 operations each (CompileRoute, CompileRouteWithTypes over a colliding pool of type maps, RecordExecution bursts, CheckAdaptiveRecompilation, RecordDeoptimization, redefine = new version + InvalidateCache/ClearCache, deoptimise = new version + RecordDeoptimization, GetUnit, profiler type usage, clock advances across the window) on three route names with statement-level interleaving; every bytecode handed out is executed on a fresh VM and compared with a fresh OptNone compilation; churn runs keep redefining one route under 2-5 callers, single-caller runs redefine routes in place; the per-name call history is checked for linearizability against a sequential cache specification; a run is non-trivial if at least two tasks were runnable at once and a preemption happened, or a clock advance fired; distinct = distinct fingerprints (schedule hash combined with workload and fault tapes) among those",
 		Components: []component{
 			{"pkg/jit JITCompiler, SpecializationCache, Profiler, AdaptiveRecompilationTrigger, DeoptimizationTracker", "real-woven", "yield before every statement + race probes"},
 			{"pkg/compiler (all optimisation levels), pkg/parser", "real-unwoven", "atomic between seams"},
@@ -194,11 +194,11 @@ var specs = map[string]*propSpec{
 			{Path: "./cmd/glyph"},
 			{Path: "./pkg/server"},
 			{Path: "./pkg/websocket"},
-			{Path: "./pkg/interpreter", Touch: true, L1: []string{"(*Interpreter).EvaluateExpression", "(*Interpreter).ExecuteStatement"}, L2Files: []string{"future.go"}},
+			{Path: "./pkg/interpreter", Touch: true, TouchLocalMaps: true, L1: []string{"(*Interpreter).EvaluateExpression", "(*Interpreter).ExecuteStatement"}, L2Files: []string{"future.go"}},
 			{Path: "./pkg/vm", Touch: true, L1: []string{"(*VM).step", "(*VM).execAsync", "(*VM).execAwait"}},
 		},
 		QuickSecs: 45, ThoroughSecs: 600, Chunk: 100,
-		Rule: "each run is one of: (A) 2-6 tasks issuing Resolve/Reject/Cancel/Await*/State/Value/Error on 1-4 shared futures plus All/Race/Any combinators over them, statement-level interleaving; (A') a combinator whose inputs are settled one at a time with a full drain in between (first-settled / first-success / order contracts); (B) a generated async/await route program (1-4 blocks, nesting, loops, parents that keep declaring or assigning, repeated and missing awaits) served by the real pipeline in compiled or interpreter mode, executed once under a non-preemptive reference schedule and 3-6 times under the seeded schedule; a run is non-trivial if at least two tasks were runnable at once and a preemption happened; distinct = distinct fingerprints (schedule hash combined with workload tape) among those",
+		Rule: "each run is one of: (A) 2-6 tasks issuing Resolve/Reject/Cancel/Await*/State/Value/Error on 1-4 shared futures plus All/Race/Any combinators over them, statement-level interleaving; (A') a combinator whose inputs are settled one at a time with a full drain in between (first-settled / first-success / order contracts); (B) a generated async/await route program (1-4 blocks, nesting, loops, parents that keep declaring or assigning, repeated and missing awaits) served by the real pipeline in compiled or interpreter mode, executed once under a non-preemptive reference schedule and 3-6 times under the seeded schedule; (C) one VM reused through Reset for 2-4 generated programs whose blocks are awaited at the end and compared with fresh-VM runs; a run is non-trivial if at least two tasks were runnable at once and a preemption happened; distinct = distinct fingerprints (schedule hash combined with workload tape) among those",
 		Components: []component{
 			{"pkg/interpreter Future, All/Race/Any, evaluateAsyncExpr/evaluateAwaitExpr, Environment", "real-woven", "future.go statement-level yields, EvaluateExpression/ExecuteStatement entry yields, race probes"},
 			{"pkg/vm execAsync/execAwait/FutureValue, step", "real-woven", "entry yields + race probes"},
@@ -213,7 +213,7 @@ var specs = map[string]*propSpec{
 		TestPkg: "cmd/glyph", HarnessDir: "C06", HarnessExtra: []string{"glyphcommon"},
 		Weave:     glyphServerWeave,
 		QuickSecs: 45, ThoroughSecs: 600, Chunk: 100,
-		Rule: "each run draws a credential configuration (JWT secret / API keys set, unset or blank; or BasicAuthMiddlewareWithConfig driven directly with small lockout parameters), an execution mode, 1-6 clients and for each a timed sequence of requests (canonical valid credential, none, wrong, empty, prefix only, other scheme, valid credential in the wrong header, credential of the other auth type, forged forwarding headers) with gaps placed around lockout expiry, reset window and cleanup ticks and up to 3 requests in flight; a run is non-trivial if at least two tasks were runnable at once and a preemption happened, or a fault (request aligned with a cleanup tick, clock jump) fired; distinct = distinct fingerprints (schedule hash combined with workload and fault tapes) among the non-trivial runs",
+		Rule: "each run draws a credential configuration (JWT secret / API keys set, unset or blank; or BasicAuthMiddlewareWithConfig driven directly with small lockout parameters), an execution mode, 1-6 clients and for each a timed sequence of requests (canonical valid credential, none, wrong, empty, prefix only, other scheme, valid credential in the wrong header, credential of the other auth type, forged forwarding headers) with gaps placed around lockout expiry, reset window and cleanup ticks and up to 3 requests in flight; secrets may consist of separators only or contain a comma; one run in 25 first sends bad requests from 10050 distinct clients (table pressure); a run is non-trivial if at least two tasks were runnable at once and a preemption happened, or a fault (request aligned with a cleanup tick, clock jump) fired; distinct = distinct fingerprints (schedule hash combined with workload and fault tapes) among the non-trivial runs",
 		Components: []component{
 			{"parser, compiler, setupRoutes, createHandler, routeMiddlewares/authMiddleware/apiKeyMiddleware/denyAllMiddleware (cmd/glyph)", "real-woven", "L0"},
 			{"pkg/server BasicAuthMiddlewareWithConfig, recordAuthFailure, getClientIP, cleanup goroutine", "real-woven", "L0 + race probes"},
@@ -229,7 +229,7 @@ var specs = map[string]*propSpec{
 		TestPkg: "cmd/glyph", HarnessDir: "C11", HarnessExtra: []string{"glyphcommon"},
 		Weave:     glyphServerWeave,
 		QuickSecs: 45, ThoroughSecs: 600, Chunk: 100,
-		Rule: "each run draws a declared limit (N in 1..200, unit sec/min/hour/day, or the middleware driven directly with trust-proxy settings), an execution mode, 1-5 clients with their own arrival processes (bursts, steady streams at 0.2-3x the rate, on/off, long idle gaps, conforming streams), forged forwarding headers and up to 4 requests in flight, all on the simulated clock; a run is non-trivial if at least two tasks were runnable at once and a preemption happened, or a fault fired; distinct = distinct fingerprints (schedule hash combined with workload and fault tapes) among the non-trivial runs",
+		Rule: "each run draws a declared limit (N in 1..200, unit sec/min/hour/day, or the middleware driven directly with trust-proxy settings), an execution mode, 1-5 clients with their own arrival processes (bursts, steady streams at 0.2-3x the rate, on/off, long idle gaps, conforming streams), forged forwarding headers and up to 4 requests in flight, all on the simulated clock; the declaration is spelled bare, quoted, capitalised, upper-case or padded; one run in 16 first admits 10050 one-shot clients (table pressure) and then drives drain-pause-burst clients; a run is non-trivial if at least two tasks were runnable at once and a preemption happened, or a fault fired; distinct = distinct fingerprints (schedule hash combined with workload and fault tapes) among the non-trivial runs",
 		Components: []component{
 			{"parser, compiler, setupRoutes, createHandler, routeMiddlewares (cmd/glyph)", "real-woven", "L0"},
 			{"pkg/server RateLimitMiddleware, getClientIP, cleanup goroutine", "real-woven", "L0 + race probes"},
